@@ -306,9 +306,9 @@ theorem C19.store_nodup : ManifestsNodup ctx store := by
     rcases hmem with ⟨rfl, rfl⟩ | ⟨rfl, rfl⟩ | ⟨rfl, rfl⟩ | ⟨rfl, rfl⟩ | ⟨rfl, rfl⟩
     · cases h
     · cases h
-    · simp only [Except.ok.injEq] at h; subst h; decide
-    · simp only [Except.ok.injEq] at h; subst h; decide
-    · simp only [Except.ok.injEq] at h; subst h; decide
+    · obtain ⟨rfl, -⟩ := checkedChildren_eq_ok h; decide
+    · obtain ⟨rfl, -⟩ := checkedChildren_eq_ok h; decide
+    · obtain ⟨rfl, -⟩ := checkedChildren_eq_ok h; decide
 open C19 in
 -- the corrupted object sits two manifests deep
 theorem C19.reach : ReachFile ctx store ⟨[], "mmm", true⟩ ⟨[122], "bbb", false⟩ :=
